@@ -1,8 +1,8 @@
 CONSTANTS
   NamesN = 2
   HostsN = 1
-  Ips = 2
-  WithForeign = FALSE
+  Ips = 1
+  WithForeign = TRUE
   Policies <- PolAll
 INIT Init
 NEXT Next
